@@ -1942,3 +1942,53 @@ def check_encode_modes(ctx, f, rule="R-SIB"):
                        "(writing a BER capture in DER mode panics in bcder)" % (short(root_fn_name(f, name)), short(adt), fld),
                        where=c.where(), detail=None if not who else {"filled_in_BER_mode_by": who[:6]})
     return n_sites
+
+
+# ---------------------------------------------------------------------------------------------
+# R-WHO on one field: who can change it
+
+def field_writers(f, adt, field):
+    """{root fn: [how]} of every non-derived function that assigns `adt.field` (also through a projection of it) or takes a
+    mutable borrow of it (handing it to something that may write: `get_or_insert`, `take`, `replace`, `as_mut` …)."""
+    out = {}
+    for n, b in f.bodies.items():
+        if is_derived_body(b):
+            continue
+        for bi, blk in enumerate(b.blocks):
+            if blk.get("cleanup"):
+                continue
+            for st in blk["stmts"]:
+                if st["s"] != "assign":
+                    continue
+
+                def on_field(pl):
+                    return any(p[0] == "f" and len(p) > 2 and p[1] == field and p[2] == adt for p in pl["p"])
+                if on_field(st["pl"]):
+                    out.setdefault(root_fn_name(f, n), []).append("assigned at %s" % b.where(bi))
+                rv = st["rv"]
+                if rv["r"] in ("ref", "rawptr") and (rv.get("mut") or rv.get("kind") == "Mut") and on_field(rv["pl"]):
+                    out.setdefault(root_fn_name(f, n), []).append("borrowed mutably at %s" % b.where(bi))
+    return out
+
+
+def check_field_writers(ctx, f, rule, adt, field, allowed, what):
+    """`adt.field` is written only by the functions `allowed` (and by private helpers all of whose callers are).  Decided on
+    the program as written only: folding helpers into their callers changes *who* writes, which is what is being asked."""
+    if getattr(ctx, "view", None) is not None:
+        return None
+    ws = field_writers(f, adt, field)
+    allowed = set(allowed)
+    changed = True
+    while changed:
+        changed = False
+        for w in sorted(set(ws) - allowed):
+            fr = f.fns.get(w)
+            callers = {root_fn_name(f, c.body.name) for b in f.bodies.values() for c in b.calls() if c.is_static and c.res == w}
+            if fr is not None and not fr.get("exported") and callers and callers <= allowed:
+                allowed.add(w)
+                changed = True
+    extra = sorted(set(ws) - allowed)
+    from engine.sym import short as _short
+    ctx.ob(rule, "%s.%s:writers" % (_short(adt), field), not extra, what,
+           detail={"other_writers": {w: ws[w][:2] for w in extra}, "writers": sorted(_short(w) for w in ws)})
+    return ws
